@@ -28,6 +28,14 @@ def groups(tier):
                     functions=[(T2, 'DTCWTInverse.forward')], replay=rp('dtcwt_slices')))
     gs.append(Group('DTCWTInverse[J=2,lowpass=none]', MD.g_dtcwt_inverse, (2, 2, -1, 'none', True, 'symmetric', 'none'), level='bounded-in-J',
                     functions=[(T2, 'DTCWTInverse.forward')], replay=rp('dtcwt_slices')))
+    # symbolic number of levels: the level-loop invariants of C03 / C11 (INIT / STEP / EXIT).  Each step is ONE application of a
+    # level Function whose own contract (above) is the per-slice linear spec, so the composition over any J is linear and slice-wise;
+    # the J=2 groups above stay for the omitted-lowpass form and as the unrolled cross-check
+    for sk in (False, True):
+        gs.append(Group('DTCWTForward[J symbolic,skip=%s]' % sk, MD.g_dtcwt_forward_symJ, (2, -1, sk, False),
+                        functions=[(T2, 'DTCWTForward.forward')], replay=rp('dtcwt_slices')))
+    gs.append(Group('DTCWTInverse[J symbolic]', MD.g_dtcwt_inverse_symJ, (2, -1), functions=[(T2, 'DTCWTInverse.forward')],
+                    replay=rp('dtcwt_slices')))
     # stationary WT
     for d in (2, 3):
         for dl in (1, 2):
